@@ -163,7 +163,7 @@ def sx_isinstance(x, t):
             return True
         if tt is bytes and isinstance(x, SxBytes):
             return True
-        if tt is str and isinstance(x, (SxStr, SxChar)):
+        if tt is str and (isinstance(x, (SxStr, SxChar)) or getattr(x, "_sx_strlike", False)):
             return True
         if tt is io.BytesIO and isinstance(x, SxReader):
             return True
@@ -182,7 +182,7 @@ def sx_type(x, *a):
         return bool
     if isinstance(x, SxBytes):
         return bytes
-    if isinstance(x, (SxStr, SxChar)):
+    if isinstance(x, (SxStr, SxChar)) or getattr(x, "_sx_strlike", False):
         return str
     if isinstance(x, SxReader):
         return io.BytesIO
@@ -1237,3 +1237,118 @@ def load_instrumented_file(path, name):
 
 def encoded_sources():
     return dict(_FINDER.sources) if _FINDER else {}
+
+
+# ---- struct (pack/unpack of fixed layouts) -----------------------------------------------------
+import struct as _struct
+import re as _re
+
+_ST_SIZES = {"x": 1, "c": 1, "b": 1, "B": 1, "?": 1, "h": 2, "H": 2, "i": 4, "I": 4, "l": 4, "L": 4, "q": 8, "Q": 8}
+
+
+def _st_parse(fmt):
+    if isinstance(fmt, bytes):
+        fmt = fmt.decode()
+    order = "big"
+    if fmt and fmt[0] in "@=<>!":
+        if fmt[0] == "<":
+            order = "little"
+        elif fmt[0] in "@=":
+            import sys as _s
+            order = _s.byteorder
+            if fmt[0] == "@":
+                raise Unsupported("struct native alignment on symbolic data")
+        fmt = fmt[1:]
+    items = []
+    for cnt, code in _re.findall(r"\s*(\d*)([xcbB?hHiIlLqQsp])", fmt):
+        n = int(cnt) if cnt else 1
+        if code in "sp":
+            items.append((code, n))
+        else:
+            items.extend([(code, 1)] * n)
+    return order, items
+
+
+def _st_size(items):
+    return sum(n if c in "sp" else _ST_SIZES[c] for c, n in items)
+
+
+def sx_struct_unpack(fmt, data):
+    if not isinstance(data, SxBytes):
+        return _struct.unpack(fmt, data)
+    order, items = _st_parse(fmt)
+    if _st_size(items) != len(data):
+        raise _struct.error("unpack requires a buffer of %d bytes" % _st_size(items))
+    out = []
+    pos = 0
+    for code, n in items:
+        if code == "s":
+            out.append(data[pos:pos + n])
+            pos += n
+            continue
+        sz = _ST_SIZES[code]
+        chunk = data[pos:pos + sz]
+        pos += sz
+        if code == "x":
+            continue
+        v = sx_int_from_bytes(chunk, order)
+        if code in "bhilq" and not isinstance(v, int):
+            v = sym_ite(v >= (1 << (8 * sz - 1)), v - (1 << (8 * sz)), v)
+        elif code in "bhilq":
+            v = v - (1 << (8 * sz)) if v >= (1 << (8 * sz - 1)) else v
+        elif code == "?":
+            v = v != 0
+        elif code == "c":
+            v = chunk
+        out.append(v)
+    return tuple(out)
+
+
+def sx_struct_pack(fmt, *vals):
+    if not any_sym(vals):
+        return _struct.pack(fmt, *vals)
+    order, items = _st_parse(fmt)
+    out = b""
+    vi = 0
+    for code, n in items:
+        if code == "x":
+            out = out + b"\x00"
+            continue
+        v = vals[vi]
+        vi += 1
+        if code == "s":
+            b = v[:n]
+            out = out + b + b"\x00" * (n - len(b))
+            continue
+        sz = _ST_SIZES[code]
+        if code in "bhilq":
+            if bool(v < -(1 << (8 * sz - 1))) or bool(v >= (1 << (8 * sz - 1))):
+                raise _struct.error("argument out of range")
+            v = sym_ite(v < 0, v + (1 << (8 * sz)), v) if isinstance(v, SxInt) else (v + (1 << (8 * sz)) if v < 0 else v)
+        elif code == "?":
+            v = sym_ite(v, 1, 0) if isinstance(v, SxBool) else int(bool(v))
+        else:
+            if bool(v < 0) or bool(v >= (1 << (8 * sz))):
+                raise _struct.error("argument out of range")
+        out = out + (v.to_bytes(sz, order) if not isinstance(v, (bytes, SxBytes)) else v)
+    return out
+
+
+class SxStruct:
+    def __init__(self, fmt):
+        self.format = fmt
+        self.size = _struct.calcsize(fmt)
+
+    def unpack(self, data):
+        return sx_struct_unpack(self.format, data)
+
+    def unpack_from(self, data, offset=0):
+        return sx_struct_unpack(self.format, data[offset:offset + self.size])
+
+    def pack(self, *vals):
+        return sx_struct_pack(self.format, *vals)
+
+
+register(_struct.unpack, sx_struct_unpack)
+register(_struct.pack, sx_struct_pack)
+register(_struct.Struct, SxStruct)
